@@ -160,9 +160,11 @@ def run(ctx):
                     guarded = False
                     for c in g.nodes:
                         if c.kind == 'cond' and isinstance(c.ast, ast.Compare) \
-                                and isinstance(c.ast.ops[0], ast.In) and src(c.ast.left) == recv \
+                                and isinstance(c.ast.ops[0], (ast.In, ast.NotIn)) and src(c.ast.left) == recv \
                                 and src(c.ast.comparators[0]) == 'readable':
-                            blocked = [(c.id, 'T', m.id) for lab, m in c.succ if lab == 'T']
+                            # the edge on which the socket is readable: the true edge of `in`, the false edge of `not in`
+                            lab_ok = 'T' if isinstance(c.ast.ops[0], ast.In) else 'F'
+                            blocked = [(c.id, lab_ok, m.id) for lab, m in c.succ if lab == lab_ok]
                             if n.id not in g.reach([g.entry], blocked_edges=blocked):
                                 guarded = True
                     ctx.check(guarded, 'V2', '%s.%s() runs only when `%s in readable`' % (recv, x.func.attr, recv),
